@@ -229,6 +229,61 @@ func main() {
 	h.Tick(0)
 }
 `},
+	{"host-callback-declared-func", `package main
+
+import "h"
+
+func cb(i int) {
+	h.Tick(0)
+}
+
+func main() {
+	h.Each(4, cb)
+	h.Tick(0)
+}
+`},
+	{"deferred-declared-func", `package main
+
+import "h"
+
+func cleanup() {
+	for i := 0; i < 3; i++ {
+		h.Tick(0)
+	}
+}
+
+func work() {
+	defer cleanup()
+	for i := 0; i < 3; i++ {
+		h.Tick(0)
+	}
+}
+
+func main() {
+	work()
+	h.Tick(0)
+}
+`},
+	{"deferred-closure", `package main
+
+import "h"
+
+func main() {
+	n := 0
+	func() {
+		defer func() {
+			for i := 0; i < 3; i++ {
+				n++
+				h.Tick(0)
+			}
+		}()
+		for i := 0; i < 3; i++ {
+			h.Tick(0)
+		}
+	}()
+	h.Tick(n - n)
+}
+`},
 	{"var-init-then-init-then-main", `package main
 
 import "h"
@@ -675,8 +730,8 @@ func main() {
 	r.Set("subtrees_capped", capped)
 	r.Set("exhaustive", capped == 0 && len(res.Abnormal) == 0)
 	r.Set("scenarios", per)
-	r.Set("rule", "13 programs (busy loop, recursion, closure loop, host-driven callback loop, goroutine tree, blocked send, blocked receive, select without default, range over channel, buffered producer/consumer, two consumers ranging over one buffered channel, package-variable initialiser + init + main, two inits) x 3 entry points (EvalWithContext, ExecuteWithContext, EvalPathWithContext on a virtual filesystem) x {fresh interpreter, interpreter that already completed a plain evaluation}; the canceller is an environment thread enabled at every scheduling point: every cancellation point k x every schedule with <= bound deviations from the default (run the current thread, else the lowest id; deviations = preemptions, other thread / select-case / rendezvous-partner choices; scheduling the canceller is free); non-trivial = executions in which the cancel landed while the evaluation was running")
-	r.Assumptions = []string{"deferred native calls that run while a cancelled goroutine unwinds are not counted (the family contains no defers)", "moments before the first interpreted operation (parse/compile) are outside 'k counted in interpreted operations'", "YAEGI_FAST_CHAN=1 is outside the property"}
+	r.Set("rule", "16 programs (busy loop, recursion, closure loop, host-driven callback loop with a function literal and with a declared function, deferred declared function and deferred closure doing work while the cancelled frame unwinds, goroutine tree, blocked send, blocked receive, select without default, range over channel, buffered producer/consumer, two consumers ranging over one buffered channel, package-variable initialiser + init + main, two inits) x 3 entry points (EvalWithContext, ExecuteWithContext, EvalPathWithContext on a virtual filesystem) x {fresh interpreter, interpreter that already completed a plain evaluation}; the canceller is an environment thread enabled at every scheduling point: every cancellation point k x every schedule with <= bound deviations from the default (run the current thread, else the lowest id; deviations = preemptions, other thread / select-case / rendezvous-partner choices; scheduling the canceller is free); non-trivial = executions in which the cancel landed while the evaluation was running")
+	r.Assumptions = []string{"deferred native calls that run while a cancelled goroutine unwinds are not counted (the deferred functions of the family are interpreted)", "moments before the first interpreted operation (parse/compile) are outside 'k counted in interpreted operations'", "YAEGI_FAST_CHAN=1 is outside the property"}
 	r.Sample(map[string]interface{}{"scenario": scs[0].name(), "schedule": []int{}, "src": family[0].Src})
 	if len(jobs) > 0 {
 		j := jobs[len(jobs)/2]
